@@ -654,7 +654,13 @@ func sweepCheck(c *core.Ctx, s *sweepReplay, full bool) bool {
 	}
 	var back []parquet.Row
 	res := guard(func() ([]parquet.Row, error) {
-		buf := parquet.NewGenericBuffer[SweepNarrow]()
+		// one buffer, Reset between patterns (a fresh one every 64th pattern)
+		if narrowBuf == nil || narrowUses%64 == 0 {
+			narrowBuf = parquet.NewGenericBuffer[SweepNarrow]()
+		}
+		narrowUses++
+		buf := narrowBuf
+		buf.Reset()
 		if _, err := buf.Write(rows); err != nil {
 			return nil, err
 		}
@@ -669,6 +675,7 @@ func sweepCheck(c *core.Ctx, s *sweepReplay, full bool) bool {
 		return nil, nil
 	})
 	if res.err != "" || len(back) != n {
+		narrowBuf = nil // never reuse a buffer a failed (possibly still running) write has touched
 		c.Violation("sweep-path-error", fmt.Sprintf("GenericBuffer[SweepNarrow].Write of pattern %s: %s (%d rows back)", s.Sweep, res.err, len(back)), s)
 		return false
 	}
@@ -712,6 +719,11 @@ func sweepCheck(c *core.Ctx, s *sweepReplay, full bool) bool {
 	}
 	return scanTie(c, s, flags)
 }
+
+var (
+	narrowBuf  *parquet.GenericBuffer[SweepNarrow]
+	narrowUses int
+)
 
 var sweepCatV *cat
 
